@@ -126,6 +126,7 @@ func runC05(c *Ctx) {
 		"(R2) the API a statement function can reach (result writer, COPY readers) can emit only T, D, C, G - never ErrorResponse or ReadyForQuery. (R3) every emitting method of the result writer is guarded by the closed flag and fails with ErrClosedWriter otherwise; closed only ever becomes true; Complete marks the writer closed on every path that may have emitted CommandComplete and has a single emission site; each statement call receives a freshly allocated writer. " +
 		"(R4) the row counter is incremented only on the err == nil edge of the row write. (R5) the arity test dominates the DataRow frame. Not decided: that handlers call Complete; the tag text; DataRow payloads."
 	R.Assumptions = []string{"statement functions and the parser are arbitrary callbacks that reach the connection only through the DataWriter / CopyReader handed to them"}
+	R.Explanation += " Also decided (R3): the writer is marked closed only by a call that completes - after the close is registered or performed no return refuses the call with a sentinel error."
 	R.Trusted = []string{"go/types + go/ssa"}
 
 	// ---------- R1
@@ -262,6 +263,57 @@ func (c *Ctx) c05Writer() {
 			}
 		}
 		return
+	}
+	for _, fn := range c.P.ScopeFuncs() {
+		if fn.Signature.Recv() == nil || core.NamedOf(fn.Signature.Recv().Type()) != dw || fn.Parent() != nil {
+			continue
+		}
+		// the writer is marked closed only by a call that completes: after the point where the close is
+		// registered (deferred) or performed, no return refuses the call with a sentinel error
+		var closers []ssa.Instruction
+		for _, b := range fn.Blocks {
+			for _, in := range b.Instrs {
+				if st, isStore := in.(*ssa.Store); isStore {
+					if fr, ok := core.FieldOfAddr(st.Addr); ok && fr.Is(pkWire, "dataWriter", "closed") {
+						closers = append(closers, in)
+					}
+				}
+				if ci, isCall := in.(ssa.CallInstruction); isCall {
+					if callee := core.StaticCallee(ci); callee != nil && c.storesClosedTrue(callee) {
+						closers = append(closers, in)
+					}
+				}
+			}
+		}
+		for _, ci := range closers {
+			after := reachableAvoiding(ci.Block(), func(*ssa.BasicBlock) bool { return false })
+			for b := range after {
+				ret, isRet := b.Instrs[len(b.Instrs)-1].(*ssa.Return)
+				if !isRet {
+					continue
+				}
+				ev := errOperand(ret)
+				if ev == nil {
+					continue
+				}
+				okRet := true
+				for _, root := range core.ErrRoots(ev) {
+					if core.IsNilConst(root) {
+						continue
+					}
+					if call, isCall := root.(*ssa.Call); isCall {
+						if rc := core.StaticCallee(call); rc != nil && reach[rc] {
+							continue // the outcome of the emitting operation itself
+						}
+						if rc := core.StaticCallee(call); rc != nil && rc.Signature.Recv() != nil && core.NamedOf(rc.Signature.Recv().Type()) == dw {
+							continue // the outcome of another writer method, whose own returns are subject to this rule
+						}
+					}
+					okRet = false
+				}
+				R.Check(okRet, "C05.R3", fkey(fn)+":closes-only-when-completing:"+retDescr(ret), c.at(ret), "a call that is refused (returns an error that is not the outcome of an emission) leaves the writer open: only a completing call closes it", "every return after the close is nil or the result of the emitting call", "the writer is marked closed on a path that returns a refusal: the statement can no longer be completed and no CommandComplete is sent")
+			}
+		}
 	}
 	guardedMethods := 0
 	errClosed := c.P.Global("wire", "ErrClosedWriter")
